@@ -193,11 +193,16 @@ Ltac psimpl_in H := cbn [s_cf s_maxatt s_buf s_ridx s_att s_foff s_lp s_lc s_sto
 
 (* the scrutinee x of the match at the head of H: compute it if it is closed, reuse a known equation, or split *)
 Ltac mi_case H x :=
-  first [ let v := eval cbn in x in
+  first [ match goal with
+          | E : ?l = _ |- _ =>
+            lazymatch l with _ _ => idtac end;
+            lazymatch x with context [l] => idtac end;
+            rewrite E in H
+          end
+        | let v := eval cbn in x in
           lazymatch v with
           | true => change x with true in H | false => change x with false in H
           end
-        | match goal with E : x = _ |- _ => rewrite E in H end
         | let D := fresh "D" in destruct x eqn:D ].
 
 Ltac mi_res H :=
